@@ -1,5 +1,5 @@
 #!/venv/bin/python
-# Replay of a counterexample for property C16, obligation R.route (E1).
+# Replay of a counterexample for property C02, obligation V.varies (E1).
 # Runs the harness obligation CONCRETELY on the solver's input against the library in '/tmp/repo_dev'
 # (no CrossHair, no solver).  Exit 0: property holds on this input; exit 1: violation reproduced.
 import os, sys
@@ -8,8 +8,8 @@ os.environ.setdefault('VP_REPO', '/tmp/repo_dev')
 sys.path[:0] = ['/verif']
 sys.dont_write_bytecode = True
 import importlib
-H = importlib.import_module('harness.c16')
-CALL = '_ob_route(8, False, 3)'
+H = importlib.import_module('harness.c02')
+CALL = '_ob_varies(24, 4, 0, 3)'
 try:
     ok = eval(CALL, H.__dict__)
     detail = 'returned %r' % (ok,)
